@@ -1,18 +1,16 @@
 //! Throw-away probes (`jv scratch`), not part of any check.
 pub fn run() {
     use jiff::{RoundMode, Span, SpanRound, Timestamp, Unit};
-    let z = crate::zones::by_label("syn:fat/Verif/Q45").unwrap();
-    let r = Timestamp::from_nanosecond(1286656200000000000).unwrap().to_zoned(z.tz.clone());
-    let a = Span::new().months(1).weeks(21).days(1).nanoseconds(6);
+    let tz = jiff::tz::TimeZone::get("America/Argentina/San_Juan").unwrap();
+    let r = Timestamp::from_nanosecond(-1130965200500000000).unwrap().to_zoned(tz.clone());
+    let a = Span::new().weeks(51).days(8).milliseconds(500);
     let end = r.checked_add(a).unwrap();
     println!("r={r} end={end}");
-    println!("until(month) = {:?}", r.until((Unit::Month, &end)));
-    println!("r+5mo={}", r.checked_add(Span::new().months(5)).unwrap());
-    println!("r+5mo4w={}", r.checked_add(Span::new().months(5).weeks(4)).unwrap());
-    println!("r+5mo5w={}", r.checked_add(Span::new().months(5).weeks(5)).unwrap());
-    for m in [RoundMode::Ceil, RoundMode::Trunc, RoundMode::HalfExpand] {
-        println!("round week {m:?} = {:?}", a.round(SpanRound::new().smallest(Unit::Week).mode(m).relative(&r)));
-        println!("round day {m:?} = {:?}", a.round(SpanRound::new().smallest(Unit::Day).mode(m).relative(&r)));
+    println!("until(year) = {:?}", r.until((Unit::Year, &end)));
+    for inc in [1, 2, 186] {
+        for m in [RoundMode::Ceil, RoundMode::Trunc, RoundMode::HalfExpand] {
+            println!("round month inc={inc} {m:?} = {:?}", a.round(SpanRound::new().smallest(Unit::Month).largest(Unit::Year).increment(inc).mode(m).relative(&r)));
+        }
     }
-    println!("{:?}", z.rz.footer_text);
+    println!("total months {:?}", a.total((Unit::Month, &r)));
 }
